@@ -13,7 +13,9 @@ M = "textx/model.py"; MM = "textx/metamodel.py"
 W = "ReferenceResolver.resolve_one_step"
 def r_C32(root):
     out = []; inst = 0
-    t = load(root, M); fn = find(t, W); fi = sem.info(fn)
+    t = load(root, M); fn = find_i(root, M, W); fi = sem.info(fn)
+    from sa.rules import resolver as RS
+    _R = RS.roles(root); R_obj, R_attr, R_ref = _R.v_obj, _R.v_attr, _R.v_ref
     # ---- key list
     loop_scan = None; keyvar = None
     for n in own_nodes(fn):
@@ -49,7 +51,17 @@ def r_C32(root):
         oks = True
         brks = [b for b in ast.walk(loop_scan) if isinstance(b, ast.Break)]
         callp = [c for c in calls(loop_scan) if isinstance(c.func, ast.Subscript) and "scope_providers" in ast.unparse(c.func.value)]
-        if not brks or not callp or not loop_scan.orelse:
+        selected = None
+        if brks and not callp:
+            # idiom: the loop only *selects* the provider (P = table[key]; break), a default is bound before the loop (or in its else), the call follows
+            sel = [a for a in ast.walk(loop_scan) if isinstance(a, ast.Assign) and isinstance(a.targets[0], ast.Name) and isinstance(a.value, ast.Subscript) and "scope_providers" in ast.unparse(a.value.value)]
+            if sel:
+                pv = sel[0].targets[0].id
+                n_ = fi.node_of(loop_scan); dflt = [fi.cfg.nodes[d_].ast for d_ in fi.rd.defs_of(n_, pv)] if n_ is not None else []
+                dflt_ok = any(isinstance(a, ast.Assign) and ("default" in ast.unparse(a.value)) for a in dflt) or any("default" in ast.unparse(s_) for s_ in loop_scan.orelse)
+                called = [c for c in calls(fn, own=True) if isinstance(c.func, ast.Name) and c.func.id == pv and [ast.unparse(a) for a in c.args] == [R_obj, R_attr, R_ref]]
+                if dflt_ok and called: selected = pv
+        if selected is None and (not brks or not callp or not loop_scan.orelse):
             oks = False; out.append(Finding("C32", "C32.a", M, W, "for %s in %s" % (ast.unparse(loop_scan.target), keyvar), "the scan over the candidate keys is not 'first registered key decides, default provider otherwise'"))
         for b in brks:
             for g, pol in fi.guards(b):
@@ -57,7 +69,7 @@ def r_C32(root):
                 if "scope_providers" in ast.unparse(g): continue
                 oks = False
                 out.append(Finding("C32", "C32.a", M, W, "break under " + ast.unparse(g)[:80], "the scan ends only if %s: a less specific provider is asked after a more specific registered one" % ast.unparse(g)[:60], witness="two registered keys matching one reference"))
-        if loop_scan.orelse and not any(callee_name(c) in ("default_scope", "DefaultScopeProvider") or "default" in ast.unparse(c.func) for s in loop_scan.orelse for c in calls(s)):
+        if selected is None and loop_scan.orelse and not any(callee_name(c) in ("default_scope", "DefaultScopeProvider") or "default" in ast.unparse(c.func) for s in loop_scan.orelse for c in calls(s)):
             oks = False; out.append(Finding("C32", "C32.a", M, W, "for ... else", "without a registered key the default provider is not used"))
         gl = fi.guards(loop_scan.iter)
         if not any(ast.unparse(tst).replace(" ", "") == "crossref.scope_providerisnotNone" and pol is False for tst, pol in gl):
